@@ -161,7 +161,9 @@ def run_arena(build, plan=None, budget=200000):
             sess.at_boundary(n, lambda s, kind=kind, name=name: arena.strike(kind, name))
     root = arena.main(participants, background)
     root.__name__ = root.__qualname__ = 'arena'
-    outcome = sess.run(root)
+    # (scenarios may ask for another start time, e.g. a clock so large that it absorbs every
+    # delay of the scenario: all of it happens at one date, in many successive batches)
+    outcome = sess.run(root, start=getattr(arena, 'start', 0))
     try:
         root.close()
     except BaseException:  # noqa: B902
